@@ -66,7 +66,7 @@ CHECKS = {
    technique="deterministic simulation at spec-step granularity: seeded label interleavings and message choices over the real generated archetypes; invariant oracles after every step; shrunk replay files",
    ref="6 (C15)"),
  "C02": dict(
-   text="For each wired spec/Go pair (see DESIGN.md for the list actually wired; currently locksvc, raftkvs, pbkvs, dqueue, loadbalancer and proxy) the real generated archetypes run in the level-A spec world under seeded schedules and choices; after every committed step the full spec state under the PlusCal translation's variable names (pc, every archetype local, every global) is recorded, and TLC evaluates the specification's own Init on the first state and Next (or stuttering) on every consecutive pair, reading the .tla from /repo at check time. A committed Go step that is not a step of the spec, or an initial state that is not Init, is a violation; Go assertion failures and panics are violations too.",
+   text="For each wired spec/Go pair (see DESIGN.md for the list actually wired; currently locksvc, raftkvs, pbkvs, dqueue, loadbalancer, proxy, shcounter, gcounter and shopcart; processes of a spec that are not archetypes (the CRDT merge processes of gcounter and shopcart) are transcribed by the harness and their steps are validated by TLC like any other) the real generated archetypes run in the level-A spec world under seeded schedules and choices; after every committed step the full spec state under the PlusCal translation's variable names (pc, every archetype local, every global) is recorded, and TLC evaluates the specification's own Init on the first state and Next (or stuttering) on every consecutive pair, reading the .tla from /repo at check time. A committed Go step that is not a step of the spec, or an initial state that is not Init, is a violation; Go assertion failures and panics are violations too.",
    note="Trusted: TLC as evaluator of the spec's Next; the independent TLA+ value printer; hand-written binding tables from spec variables to Go state (a missing binding stops the check with exit 2). Only wired pairs are claimed; steps the spec enables but Go refuses are not detected by this oracle.",
    technique="deterministic simulation + refinement check of the recorded history: seeded spec-level schedules over the real generated code, TLC evaluating the spec's next-state relation on every recorded state pair",
    ref="6 (C02)"),
